@@ -55,6 +55,7 @@ class CostFunction(FileIOMixin, object):
     _COV_MAT_LOG_DETERMINANT_NAME = "total_cov_mat_log_determinant"
     _ERROR_NAME = "total_error"
     _ERROR_SQUARED_LOG_SUM_NAME = "total_error_squared_log_sum"
+    _pointwise_version_kwargs = {}  # constructor arguments of a specialization that its pointwise version has to share
 
     def __init__(self, cost_function, arg_names=None, add_constraint_cost=True, add_determinant_cost=False, fast_math=False):
         """
@@ -469,6 +470,7 @@ class CostFunction_Chi2(CostFunction):
                 fallback_on_singular=not self._fail_on_no_matrix,
                 add_constraint_cost=self._add_constraint_cost,
                 add_determinant_cost=self._add_determinant_cost,
+                **self._pointwise_version_kwargs,
             )
         else:
             return None
@@ -776,6 +778,7 @@ class CostFunction_GaussApproximation(CostFunction):
                 errors_to_use="pointwise",
                 add_constraint_cost=self._add_constraint_cost,
                 add_determinant_cost=self._add_determinant_cost_ga,
+                **self._pointwise_version_kwargs,
             )
         else:
             return None
